@@ -177,6 +177,31 @@ fn main() {
             }
         }
     }
+    // 1a''. is_prime / factorize exhaustively on 0..=3000 and on the squares and neighbouring products of the
+    // primes below 1000 (the trial-division loop's stopping test is exercised exactly at n = p^2)
+    {
+        let mut primes: Vec<u64> = vec![];
+        for n in 2u64..1000 {
+            if primes.iter().all(|p| n % p != 0) {
+                primes.push(n);
+            }
+        }
+        let mut ns: Vec<u64> = (0u64..=3000).collect();
+        for (i, p) in primes.iter().enumerate() {
+            ns.push(p * p);
+            if let Some(q) = primes.get(i + 1) {
+                ns.push(p * q);
+            }
+            ns.push(p * p + 2);
+            ns.push(p * p - 2);
+        }
+        for n in ns {
+            let a = BigInt::from(n);
+            for op in ["is_prime", "factorize"] {
+                cases.push(Case { kind: "un", op: op.to_string(), a: a.clone(), b: BigInt::from(0), src_a: produce(&a, (n % 3) as u64), src_b: String::new() });
+            }
+        }
+    }
     // 1b. `^` with the cheap bases and every special exponent (incl. 2^31, 2^32 and beyond), both signs
     for (i, e) in specials.iter().enumerate() {
         for (j, base) in [0i64, 1, -1].iter().enumerate() {
